@@ -711,7 +711,7 @@ def c07(tier):
     run_model(rep, pdb_cfg(**kw1), "MC_C07(r,2 keys,3 calls)", timeout=3000)
     num = 300 if thorough else 50
     for i, cols in enumerate(RC_COLS):
-        gen_and_replay(rep, cols, dict(feat=("restart", "reject", "crash"), maxops=3, maxcrash=2,
+        gen_and_replay(rep, cols, dict(feat=("restart", "reject", "crash"), maxops=4, maxcrash=2,
                                        invariants=("ReadLatest", "RecoveredIsPrefix")),
                        num, 32, SEED + 3 + i * 29, 2, 2, small=(i == 0), label="c07_%d" % i)
     ntr = 6 if thorough else 2
@@ -1463,6 +1463,12 @@ def c06(tier):
         log("[trace] c06_%d cols=%s: %d events, %d values over %d boundary lengths, matched %s/%s"
             % (j, model_kinds(cols), summary.get("events", 0), summary.get("values_swept", 0), summary.get("nvals", 0),
                res.get("matched"), res.get("total")))
+    # chains overwritten by chains: every value of these columns is stored in parts (33 .. 100 KB), values whose ids
+    # have the same parity agree byte for byte in their second and third part, and a key is overwritten again
+    # while earlier overwrites are still in the log overlay (A applied, B planned, C planned: C = A in whole parts)
+    multi = [[{"kind": "hash", "multi": True}], [{"kind": "btree", "multi": True}, {"kind": "rc", "multi": True}]]
+    for j, cols in enumerate(multi + ([[{"kind": "hash", "multi": True, "comp": "lz4", "threshold": 0}]] if thorough else [])):
+        record_and_validate(rep, cols, 3, 6, 900 if thorough else 450, SEED * 83 + j, crash=1, label="c06m%d" % j, dumps=True)
     rep.evaluations += written
     rep.extra["values_written"] = written
     rep.sample({"boundary_lengths_first": "0,1,2,3,4,5, then cap-1/cap/cap+1 of each of 255 tiers, multipart boundaries, 1048577, 3000001"})
